@@ -10,7 +10,8 @@ preprocessing.  For the returned batch of circuits:
     equivalent    every returned circuit is evaluated by the matrix-route ORACLE (products of qp.matrix, own measurement formulas - not
                   the device simulator), the program's post-processing function is applied, and z3 proves every result equal to the
                   oracle's result for the ORIGINAL circuit, for all angles.
-Circuits the device must reject (an operation without decomposition and matrix) raise DeviceError (structural).
+Circuits the device must reject (an operation without decomposition and matrix; for default.mixed, which declares a closed observable
+set, observables outside it - also as scalar multiples or nested in products / sums) raise DeviceError (structural).
 Outside: execution of the processed circuits by the device (C26-C28), shots / sampling programs, mid-circuit measurements (C21),
 differentiation-method specific programs, other devices (compiled or external simulators).
 """
@@ -117,6 +118,9 @@ def replay(p):
     if p.get("kind") == "reject":
         pr = reject_problem(p["device"])
         return bool(pr), pr or "rejected"
+    if p.get("kind") == "reject-obs":
+        pr = reject_obs_problem(p["device"])
+        return bool(pr), pr or "rejected"
     return _num(p["device"], p["circuit"], p["meas"], p["params"])
 
 
@@ -139,7 +143,38 @@ def reject_problem(dname):
     return f"{dname}: an operation without matrix and decomposition was accepted ({[o.name for o in tapes[0].operations]})"
 
 
+UNSUPPORTED_OBS = {
+    "X(0)**2": lambda: qp.pow(qp.PauliX(0), 2), "2 * X(0)**2": lambda: 2 * qp.pow(qp.PauliX(0), 2), "Z(1) @ (2 * X(0)**2)": lambda: qp.PauliZ(1) @ (2 * qp.pow(qp.PauliX(0), 2)),
+    "Z(1) + 2 * Adjoint(X(0))": lambda: qp.PauliZ(1) + 2 * qp.adjoint(qp.PauliX(0)), "CZ([0,1])": lambda: qp.CZ([0, 1]),
+}
+
+
+def reject_obs_problem(dname):
+    """default.mixed declares a closed set of observables: anything else - also as a scalar multiple or nested in a product / sum - is rejected"""
+    from pennylane.exceptions import DeviceError
+
+    dev = qp.device(dname, wires=W)
+    for label, mk in UNSUPPORTED_OBS.items():
+        tape = qp.tape.QuantumScript([qp.RX(0.3, 0)], [qp.expval(mk())])
+        try:
+            program_of(dev)([tape])
+        except DeviceError:
+            continue
+        except Exception as e:  # noqa: BLE001
+            return f"{dname}: expval({label}) raised {type(e).__name__} instead of DeviceError"
+        return f"{dname}: expval({label}) is outside the device's declared observables but was accepted by the preprocessing"
+    return None
+
+
 def work(item):
+    if item[0] == "reject-obs":
+        dname = item[1]
+        pr = reject_obs_problem(dname)
+        rec = {"name": f"{dname}: observables outside the declared set ({', '.join(UNSUPPORTED_OBS)}) are rejected with DeviceError", "status": "violated" if pr else "discharged", "symbols": [], "nontrivial": False, "queries": 1,
+               "detail": pr or "DeviceError for each"}
+        if pr:
+            rec.update(signature=f"reject-obs:{dname}", replay={"kind": "reject-obs", "device": dname, "observed": pr})
+        return [rec]
     if item[0] == "reject":
         dname = item[1]
         pr = reject_problem(dname)
@@ -201,7 +236,7 @@ def work(item):
 
 def run(ctx):
     ctx.level = "other"
-    items = [("reject", d) for d in DEVICES] + [(d, c, m) for d in DEVICES for c in CIRCUITS for m in MEAS
+    items = [("reject", d) for d in DEVICES] + [("reject-obs", "default.mixed")] + [(d, c, m) for d in DEVICES for c in CIRCUITS for m in MEAS
                                                  # reference.qubit unrolls the QFT circuit into ~100 rotations with floating angles: z3 answers unknown at 180 s (thorough tier only)
                                                  if not (ctx.tier == "quick" and d == "reference.qubit" and c == "template and wrappers")]
     if ctx.only:
